@@ -417,7 +417,8 @@ func runCk(r *verifx.Rng, big bool) {
 		for i := 0; i < nitems; i++ {
 			var item []byte
 			if big {
-				sizes := []int{data_model.ChunkSize/2 - 1 - (len(x.chunk) - 24), data_model.ChunkSize/2 - (len(x.chunk) - 24), 300000, 524290, data_model.ChunkSize + 1 - (len(x.chunk) - 24), 100}
+				sizes := []int{data_model.ChunkSize/2 - 1 - (len(x.chunk) - 24), data_model.ChunkSize/2 - (len(x.chunk) - 24), 300000, 524290, data_model.ChunkSize + 1 - (len(x.chunk) - 24), 100,
+					data_model.ChunkSize - (len(x.chunk) - 24), data_model.ChunkSize - (len(x.chunk) - 24)}
 				sz := sizes[r.Intn(len(sizes))]
 				if sz <= 0 {
 					sz = 70000
@@ -1262,9 +1263,9 @@ func main() {
 		switch {
 		case h.Mode != "":
 			kind = h.Mode
-		case i%400 == 399:
+		case i%300 == 299:
 			kind = "bigmc"
-		case i%200 == 149:
+		case i%100 == 49:
 			kind = "bigck"
 		case i%10 == 9:
 			kind = "ckx"
